@@ -79,9 +79,9 @@ def iteLeaf : Nat → Term → Term
   | n + 1, .node .ite [_, a, _] _ => iteLeaf n a
   | _, t => t
 
-/-- `FNode.bv_width` (fnode.py:468-493): a *syntactic* width -/
-def bvWidth (t : Term) : Except Err Nat :=
-  match iteLeaf t.size t with
+/-- `FNode.bv_width` on a node that is not an ITE (fnode.py:468-493) -/
+def leafWidth (t : Term) : Except Err Nat :=
+  match t with
   | .node .bvConst _ (.bv _ w) => .ok w
   | .node .symbol _ (.sym s) =>
     if s.params.isEmpty then (match s.ret with | .bv w => .ok w | _ => .error .assertion)
@@ -92,6 +92,10 @@ def bvWidth (t : Term) : Except Err Nat :=
     (match a.typeOf with | some (.array _ (.bv w)) => .ok w | _ => .error .other)
   | .node op _ (.ints (w :: _)) => if isBvOp op then .ok w else .error .assertion
   | .node op _ _ => if isBvOp op then .error .other else .error .assertion
+
+/-- `FNode.bv_width` (fnode.py:468-493): a *syntactic* width (the then-branches of an ITE chain
+are followed down to the first non-ITE node) -/
+def bvWidth (t : Term) : Except Err Nat := leafWidth (iteLeaf t.size t)
 
 def isNot : Term → Bool | .node .not _ _ => true | _ => false
 def isConstant : Term → Bool | .node op _ _ => op.isConstant
@@ -218,7 +222,7 @@ def Pow (base exponent : Term) : R :=
 /-- `Div` (formula.py:271-286) with `env.enable_div_by_0 = True` (the default) -/
 def Div (l r : Term) : R :=
   match r with
-  | .node .realConst _ (.q c) =>
+  | .node .realConst [] (.q c) =>            -- a constant node has no children
     if c = 0 then create .div [l, r] else Times [l, RealC (1 / c)]
   | _ => create .div [l, r]
 
@@ -233,7 +237,7 @@ def ToReal (f : Term) : R :=
   | some .real => .ok f
   | some .int =>
     (match f with
-     | .node .intConst _ (.i n) => .ok (RealC n)
+     | .node .intConst [] (.i n) => .ok (RealC n)
      | _ => create .toReal [f])
   | _ => .error .type
 
